@@ -18,7 +18,17 @@ StrengthModels / GrainGrowthModels / recorders (two or three of one class), and 
 as the host with real solve calls, vs the state machine KawinV.Coupling (list, host index, log of update calls).
 Direct oracle: the C18 predicates on the real functions and histories; for EVERY model that was attached:
 one update per host step since its attachment (strength rows = steps + 1, grain clock = host time elapsed),
-addCouplingModel leaves the models already attached in place (identity, order)."""
+addCouplingModel leaves the models already attached in place (identity, order).
+(H) histories of LoadDistribution(data) / LoadDistributionFunction(f) / reset() / solve(short) / coupled host step on real
+GrainGrowthModels, oracle after EVERY operation: grain volume 1 after every load and after every reset, conserved over every
+solve / host step, reset() gives back exactly the distribution and grid the last load left (snapshot) and clock [0]; the
+load / Normalize / backup / reset operations vs KawinV.Coupling.runG (verb c18.ggload).
+(I) histories of addCouplingModel / clearCouplingModels / host.reset() / reset() of a coupled grain-growth model / several
+host.solve calls IN ANY ORDER on a real Al-Zr PrecipitateModel (real StrengthModels, GrainGrowthModels, recorders) and on a real
+GrainGrowthModel host; attached = added and not cleared BY THE USER (host.reset() does not detach: PrecipitateBase.reset /
+GrainGrowthModel.reset do not touch couplingModels); oracle after every host step (observer on the host's postProcess): exactly
+one update and one new strength entry per attached StrengthModel, grain clock advanced by the host step for every attached
+GrainGrowthModel; update-call log vs the machine KawinV.Coupling.hrun with the reset operation (verb c18.hcouple)."""
 import math, os, sys
 import numpy as np
 import vlib
@@ -26,7 +36,7 @@ from vlib import Result, enc_list, f2b, Toks, close
 
 PROP = 'C18'
 META = {
-    'level_text': 'Lean 4 theorems about (i) definitions REGENERATED on every run from Strength.py by a concolic tracer (mixed, edge and screw contribution formulas, Orowan, line tension) and (ii) hand models of the array logic of Strength.py and GrainGrowth.py: every clipped weak/strong/Orowan contribution is >= 0, the weak/strong sums, the combined precipitate strength, the multi-phase precipitate strength and the total strength are >= 0 (reals, rpow); precipitate strength = Taylor factor x min(weak, strong, Orowan) and 0 when a branch is non-finite (no precipitates); superposition (sum a_i^n)^(1/n) >= every a_j and non-decreasing in every a_i; the traced mixed-dislocation formulas reduce to the traced edge/screw formulas at 90/0 degrees (exact identities for modulus, APB-weak, SFE, interfacial; for the coherency and APB-strong formulas, whose published coefficients are rounded, the reduced form plus bounds on the coefficient ratio); Zener drag: sign in {0, sign g}, |cG| <= |g|, frozen when the drag >= max|g|; third moment = 1 after Normalize, mean size invariant under Normalize; transport with zero nucleation does not increase the number of grains (C07 budget + one-sided ends); one strength row per host step plus the initial row over any number of solve calls; grain-growth clock = host clock after every host step; the coupling list of a host as a state machine (attach = append, clear, host step = one updateCoupledModel call per list entry in list order): for every history of attach / clear / step operations every attached model is updated exactly once per host step since its attachment, at consecutive host indices (attached_updated_every_step), attaching keeps every attached model in place and does not change the update calls any other model receives (attach_mem, attach_prefix, attach_does_not_alter_others), cleared models are not updated, hence a StrengthModel attached at any time has (host steps since its attachment) + 1 rows (attached_history_length); witness: de-duplication by class detaches the first of two models of one class (dedup_detaches_first_of_same_class). The generated definitions and the models are tied to the code by differential correspondence on every run, the predicates are evaluated on the real functions and on a real coupled Al-Zr run.',
+    'level_text': 'Lean 4 theorems about (i) definitions REGENERATED on every run from Strength.py by a concolic tracer (mixed, edge and screw contribution formulas, Orowan, line tension) and (ii) hand models of the array logic of Strength.py and GrainGrowth.py: every clipped weak/strong/Orowan contribution is >= 0, the weak/strong sums, the combined precipitate strength, the multi-phase precipitate strength and the total strength are >= 0 (reals, rpow); precipitate strength = Taylor factor x min(weak, strong, Orowan) and 0 when a branch is non-finite (no precipitates); superposition (sum a_i^n)^(1/n) >= every a_j and non-decreasing in every a_i; the traced mixed-dislocation formulas reduce to the traced edge/screw formulas at 90/0 degrees (exact identities for modulus, APB-weak, SFE, interfacial; for the coherency and APB-strong formulas, whose published coefficients are rounded, the reduced form plus bounds on the coefficient ratio); Zener drag: sign in {0, sign g}, |cG| <= |g|, frozen when the drag >= max|g|; third moment = 1 after Normalize, mean size invariant under Normalize; transport with zero nucleation does not increase the number of grains (C07 budget + one-sided ends); one strength row per host step plus the initial row over any number of solve calls; grain-growth clock = host clock after every host step; the coupling list of a host as a state machine (attach = append, clear, host step = one updateCoupledModel call per list entry in list order): for every history of attach / clear / step operations every attached model is updated exactly once per host step since its attachment, at consecutive host indices (attached_updated_every_step), attaching keeps every attached model in place and does not change the update calls any other model receives (attach_mem, attach_prefix, attach_does_not_alter_others), cleared models are not updated, hence a StrengthModel attached at any time has (host steps since its attachment) + 1 rows (attached_history_length); witness: de-duplication by class detaches the first of two models of one class (dedup_detaches_first_of_same_class); histories WITH host.reset() (machine hrun: attach / clear / reset / step, host index rewound by reset, host steps counted over resets): reset keeps the coupling list (reset_keeps_attachments, attached_after_resets), a model attached once and not cleared by the user is updated exactly once at each host step after its attachment over any number of solve calls and resets (one_entry_per_step_over_histories, updates_count_over_histories), hence its strength history has steps + 1 entries (strength_history_over_histories) and the clock of an attached GrainGrowthModel is the sum of the host steps since its attachment (grain_clock_over_histories); witness reset_detaching_loses_updates for a reset that detaches; the grain-growth loaders and reset as operations (load = initial grid, raw distribution, Normalize, then backup; reset = restore backup, clock [0]; solve = any state): reset after anything after a load gives back exactly the loaded state (reset_restores_loaded), a loaded distribution and every later reset state have grain volume 1 (loaded_normalised, reset_normalised); witness backup_before_normalise_loses_volume / backupFirst_reset_restores_raw for a backup taken before Normalize. The generated definitions and the models are tied to the code by differential correspondence on every run, the predicates are evaluated on the real functions and on a real coupled Al-Zr run.',
     'level_note': 'Monitored only (oracle, not proved): monotone mean grain size without pinning (needs third-moment conservation of the upwind scheme, only approximate); finiteness of IEEE results (the model treats np.isfinite as an arbitrary predicate; non-finite -> 0 is proved, that the real formulas are non-finite exactly for empty distributions is checked numerically); coherency-weak/strong and APB-strong edge/screw agreement is up to the rounding of the published coefficients (1e-5 / 1.5e-3 relative). The inner GrainGrowthModel.solve reaching exactly its end time is C05; here it is checked on the real run. Known finding gg-mean-size-dip-volume-drift: the mean grain size can dip by 1e-5..2e-4 relative in a step where grains leave through the last face of the grid (volume before Normalize < 1); the proved bound Rm_new^3 >= V_new * Rm_old^3 is checked by the oracle on every standalone step. Trusted: Lean kernel + Mathlib, axioms propext/Classical.choice/Quot.sound; the tracer tools/py2lean/sym.py (validated numerically on every run); hand models equal the NumPy code as far as this run compared them; exact-field arithmetic instead of IEEE doubles.',
     'technique': 'Lean 4 proof over generated definitions (py2lean) + hand models + differential correspondence + real coupled run',
     'design_ref': 'DESIGN.md section 6, C18',
@@ -42,11 +52,13 @@ ASSUMPTIONS = [
     'material parameters are positive and finite, Poisson ratio < 1, superposition exponents > 0, Taylor factor >= 0, base and solid-solution strength >= 0',
     'radii and spacings are non-negative (zeros and radii below the dislocation core radius included)',
     'grain size distributions are non-negative with at least one populated class (Normalize divides by the third moment); drag z >= 0',
+    'attached = added with addCouplingModel and not removed by the USER with clearCouplingModels: host.reset() rewinds the results only and keeps the coupling list (read from the unchanged PrecipitateBase.reset / GrainGrowthModel.reset); a StrengthModel has no reset, so its history goes on over host resets (one new entry per host step); the clock of a coupled GrainGrowthModel counts the host time elapsed since its attachment or its own reset()',
     'a coupling model OBJECT is attached at most once at a time (addCouplingModel is a plain append: the same object attached twice is updated twice per host step - modelled with multiplicity in updatesOf_run, not generated by the oracle); a model attached after n host steps starts its own history there: rows = steps since attachment + 1, clock = host time elapsed since attachment',
     'theorems are over exact ordered-field / real arithmetic; IEEE doubles compared with rtol 1e-9',
 ]
 TRUSTED = ['tools/py2lean/sym.py concolic tracer and emitter (every generated def is re-validated numerically on each run)',
            'np.power / np.amin / boolean-mask assignment / np.append semantics as modelled in KawinV.Strength and KawinV.Grain (compared on every run)',
+           'parts (H), (I): the per-step observer is a wrapper set on the host INSTANCE around host.postProcess (GenericModel.solve hands self.postProcess to the solver); it also ends a solve call after 1-4 accepted steps by raising from there, like the step cap of kwnruns.run; in (H) the raw distribution handed to the model is computed by the harness (np.histogram on the initial grid / the function on the initial class centres)',
            'part (G): the stand-in host is a subclass of the real GenericModel (its coupling-list methods are the code under test) that carries only the attributes the coupling models read (phases, elements, PBM[p].PSD/PSDsize, pData.n/time/composition/Ravg/volFrac, setTimeInfo); the per-model call log comes from wrappers set on the model instances']
 
 GEN_FILE = os.path.join(vlib.LEAN, 'KawinV', 'Gen', 'C18Strength.lean')
@@ -1043,7 +1055,7 @@ def gghist_impl(a):
                      % (where, float(g.time[-1]), how, dt, t0, len(g.time) - n0, len(g.avgR) - n0), float(g.time[-1]), t0 + dt)
             last = 'solve'
         states.append((g.pbm.PSD.copy(), g.pbm.PSDbounds.copy(), float(g.time[-1]), vol()))
-        if out:
+        if len(out) >= 3:
             break
     line = 'c18.ggload 0 %s %s %d %s' % (enc_list(size0), enc_list(bounds0), len(toks), ' '.join(toks))
     return dict(out=out, ops=ops, line=line, states=states, bins=ga['bins'], coupled=coupled)
@@ -1175,7 +1187,7 @@ def hhist_impl(a):
         return 'attached-before-host-reset' if reset_since[k] else 'no-host-reset-since-attachment'
 
     def check_steps(where):
-        """every host step recorded during the last solve call"""
+        """every host step recorded during the last solve call; all failing classes of the first failing host step are reported"""
         for rec in recs:
             if any(reset_since[k] for k in order):
                 cov['over_reset'] += 1          # a host step with a model attached BEFORE a host.reset()
@@ -1186,39 +1198,45 @@ def hhist_impl(a):
             got = [(n, k) for g_, n, k in log if g_ == rec['g']]
             want = [(rec['n'], k) for k in order]
             at = '%s, host step %d (t = %r)' % (where, rec['n'], rec['t'])
+            n0 = len(out)
             if got != want:
-                bad = next((k for k in range(nm) if sum(1 for _, j in got if j == k) != (1 if k in order else 0)), None)
-                if bad is None:
+                bad = [k for k in range(nm) if sum(1 for _, j in got if j == k) != (1 if k in order else 0)]
+                if not bad:
                     fail('coupled-model-updates:host-history:%s:order-or-index' % hostcls, '%s: update calls (host index, model) %r' % (at, got), got, want)
-                else:
-                    c = sum(1 for _, j in got if j == bad)
-                    fail('coupled-model-updates:host-history:%s:%s' % (hostcls, situation(bad)),
+                seen = set()
+                for b in bad:
+                    if (cls[b], situation(b)) in seen:
+                        continue
+                    seen.add((cls[b], situation(b)))
+                    c = sum(1 for _, j in got if j == b)
+                    fail('coupled-model-updates:host-history:%s:%s' % (hostcls, situation(b)),
                          '%s: %s #%d (%s) received %d update calls at this host step; attached models: %r'
-                         % (at, cls[bad], bad, situation(bad), c, [('%s #%d' % (cls[j], j)) for j in order]), c, 1 if bad in order else 0)
-                return False
+                         % (at, cls[b], b, situation(b), c, [('%s #%d' % (cls[j], j)) for j in order]), c, 1 if b in order else 0)
+            seen = set()
             for k in range(nm):
-                if not ever[k]:
+                if not ever[k] or (desc[k]['kind'], situation(k)) in seen:
                     continue
                 s_, kd = rec['states'][k], desc[k]['kind']
                 who = '%s #%d (%s)' % (cls[k], k, situation(k))
+                n1 = len(out)
                 if kd == 'strength':
                     wantr = 0 if n_upd[k] == 0 else n_upd[k] + 1
                     if s_ != (wantr, wantr, wantr):
                         fail('strength-history-misaligned:host-history:%s:%s' % (hostcls, situation(k)),
                              '%s: %s has %d/%d/%d entries (rss/ls/ss), it was attached for %d host steps' % ((at, who) + s_ + (n_upd[k],)), list(s_), wantr)
-                        return False
                 elif kd == 'grain':
                     if not close(s_[2], exp_clock[k], 1e-9):
                         fail('grain-clock-misaligned:host-history:%s:%s' % (hostcls, situation(k)),
                              '%s: clock of %s is %r, the host advanced by %r while it was attached (%d host steps)' % (at, who, s_[2], exp_clock[k], n_upd[k]),
                              s_[2], exp_clock[k])
-                        return False
-                    if s_[0] != s_[1] or (k in order and not close(s_[3], 1.0, 1e-9)):
+                    elif s_[0] != s_[1] or (k in order and not close(s_[3], 1.0, 1e-9)):
                         fail('coupled-grain-volume:host-history:%s' % situation(k), '%s: %s: time/avgR lengths %d/%d, grain volume %r' % (at, who, s_[0], s_[1], s_[3]), s_[3], 1.0)
-                        return False
                 elif s_[0] != n_upd[k]:
                     fail('coupled-model-updates:host-history:%s:%s' % (hostcls, situation(k)), '%s: %s saw %d host steps, attached for %d' % (at, who, s_[0], n_upd[k]), s_[0], n_upd[k])
-                    return False
+                if len(out) > n1:
+                    seen.add((kd, situation(k)))
+            if len(out) > n0:
+                return False
         return True
 
     i = 0
@@ -1603,6 +1621,8 @@ def corr(ctx, oracle_only=False, scale=1, skip_run=False):
                 '(C) 1-3 phases precStrength + totalStrength; (D) history op sequences (1-3 solve calls x 0-6 host steps, empty and populated PSDs); '
                 '(E) grain growth: random size grids x distribution kind x drag level, standalone runs; (F) one real coupled Al-Zr run with 4-5 coupling models (2-3 of one class, attached before / after the base models or between the solve calls); '
                 '(G) coupling-list histories: 2-6 models (2-3 of one class: StrengthModel / GrainGrowthModel / recorder) x 1-3 solve calls x attach slots (before the first solve, between solves) x clear + re-attach, on a stand-in host with the real list and on a real GrainGrowthModel host; non-trivial = at least one host step with two models of one class attached. '
+                '(H) grain-growth histories: 4-9 operations from LoadDistribution(random log-normal sample of 300..50000 sizes, some outside the grid) / LoadDistributionFunction(log-normal x amplitude 1e-3..1e20) / reset / solve(0.02-0.2 of the growth time scale, Euler or RK4) / coupled host step (every third history: the model attached to a stand-in host with the real coupling list), oracle after every operation; non-trivial = a load followed later by a reset. '
+                '(I) host histories: 6-11+ operations from addCouplingModel / clearCouplingModels / host.reset() (sometimes followed by setPBMParameters) / reset() of a coupled GrainGrowthModel / host.solve (1-4 accepted steps per call on the Al-Zr PrecipitateModel, up to the natural end on the GrainGrowthModel host), at least two solve calls and one host reset, random order; 2-4 models (StrengthModel, GrainGrowthModel loaded from data or function, recorders); non-trivial = at least one host step with a model attached BEFORE a host.reset(). '
                 'non-trivial = at least one enabled contribution and one entry with precipitates (B,C) / populated distribution (D,E); distinct = full case tuple. '
                 'Every case runs in its own guard: an exception raised by the code under test is a violation raises:<call site>:<type> with the case, the run goes on')
     res.monitored = list(MONITORED)
@@ -1723,13 +1743,13 @@ def corr(ctx, oracle_only=False, scale=1, skip_run=False):
                    ('couple', {'part': 'G', **a, 'ops': ' '.join(h['ops'])}, h['ids'], h['n'], h['log']))])
 
     # ---------------- (H) grain-growth histories: load / reset / solve / coupled host step, oracle after every operation
-    for it in range(ctx.n(40, 2500) * scale):
+    for it in range(ctx.n(40, 1500) * scale):
         a = {'s': rng.getrandbits(48), 'coupled': it % 3 == 2}
         case = {'chk': 'gghist', 'args': a}
         ok, h = vlib.guarded(res, 'grain-growth-history', case, gghist_impl, a)
         if not ok:
             continue
-        for key, what, obs, req in h['out'][:3]:
+        for key, what, obs, req in h['out'][:4]:
             res.violate(key, what, case, obs, req)
         sq = ''.join(h['ops'])
         res.case(('H', a['s'], a['coupled']), any(c in 'LF' for c in sq) and 'R' in sq)
@@ -1751,7 +1771,7 @@ def corr(ctx, oracle_only=False, scale=1, skip_run=False):
         ok, h = vlib.guarded(res, 'host-history', case, hhist_impl, a)
         if not ok:
             continue
-        for key, what, obs, req in h['out'][:3]:
+        for key, what, obs, req in h['out'][:6]:
             res.violate(key, what, case, obs, req)
         res.case(('I', a['host'], a['s']), h['steps'] > 0 and h['over_reset'] > 0)
         res.count('I:host=%s' % a['host']); res.count('I:solve-calls', h['nV']); res.count('I:host-resets', h['nR']); res.count('I:host-steps', h['steps'])
